@@ -439,7 +439,8 @@ def pre_render(pool, base, k, idx):
         _PRE[(base, k, 0)] = text
     name = mod_stem(base, 0)[:-len("_0_mod")]
     text = _PRE[(base, k, 0)]
-    text = re.sub(re.escape(name) + r"_0_(mod|code)\b", lambda m: f"{name}_{idx}_{m.group(1)}", text, flags=re.I)
+    text = re.sub("(" + re.escape(name) + r")_0_(mod|code)\b", lambda m: f"{m.group(1)}_{idx}_{m.group(2)}", text,
+                  flags=re.I)
     _PRE[key] = text
     return text
 
